@@ -48,3 +48,28 @@ def twin_dimension_value(value: str, present: bool) -> bool:
     post: not _
     """
     return dimension_value_is_offered_or_refused(value, present)
+
+
+DIM_NAMES = ['time', 'Time', 'TIME', 'elevation', 'Elevation', 'tim', 'x', '']
+DIM_VALUES = ['default', 'Default', '2020', '9999', '', '0,9999']
+
+
+def restful_unknown_dimension_is_refused(name: int, value: int, layer_has_other_dimension: bool) -> bool:
+    """
+    pre: 0 <= name < 8 and 0 <= value < 6
+    post: _
+    """
+    # RESTful WMTS: the URL template may carry a dimension this layer does not offer; a value other than 'default' for it is
+    # refused (it would otherwise be dropped silently and the request served) -- whether or not the layer has other dimensions.
+    # Names and values are drawn by the solver from pools (case variants, prefixes, empty).
+    from mapproxy.service.wmts import WMTSRestServer
+    srv = WMTSRestServer.__new__(WMTSRestServer)
+    layer = TileLayer.__new__(TileLayer)
+    layer.dimensions = {'time': Dimension('time', ['2020'])} if layer_has_other_dimension else {}
+    dims = {DIM_NAMES[name]: DIM_VALUES[value]}
+    must_refuse = any(k.lower() not in layer.dimensions and v != 'default' for k, v in dims.items())
+    try:
+        srv.check_request_dimensions(layer, _Req(dims))
+    except RequestError:
+        return must_refuse
+    return not must_refuse
